@@ -13,7 +13,8 @@ RULE = ('a case is a sentence whose tag rows are built around the beam boundary:
         'parse when the reference finds none over the may set, no failure when it finds one over the must set. distinct = fingerprint '
         'of (grammar, matrices, config); non-trivial = the beam excludes at least one tag of some word.')
 ASSUMPTIONS = SC.ASSUMPTIONS + ['ties and float rounding exactly at the beam boundary are neutral (must/may sets)']
-REQUIRED_MONITORS = {'monitor:tree-validated': 300, 'monitor:failure-legitimacy': 100, 'beam:cases-with-exclusion': 300}
+REQUIRED_MONITORS = {'monitor:tree-validated': 300, 'monitor:failure-legitimacy': 100, 'beam:cases-with-exclusion': 300,
+                     'cli:argument-vectors': 100, 'pool:calls': 2}
 prepare = SC.prepare
 
 
@@ -23,7 +24,56 @@ def shards(tier, seed):
     # the beam must also hold on the multiprocessing path (settings travel to the workers)
     out += [{'name': f'pool{k}', 'variant': 'plain', 'build': 'plain', 'kind': 'pool', 'cases': 3 if q else 40,
              'budget_s': 50 if q else 600, 'timeout': 1500} for k in range(2)]
+    # the beam settings given on the command line must reach the parser unchanged
+    out += [{'name': 'cli', 'kind': 'cli', 'cases': 400 if q else 20000, 'budget_s': 40 if q else 300}]
     return out
+
+
+def run_cli(spec, R):
+    import sys
+    from vlib import env
+    from vlib.runner import shard_rng
+    env.install()
+    env.stub_native_parsing()
+    import depccg.argparse as A
+    rng = shard_rng(ID, spec['seed'], spec['name'])
+    for i in range(spec['cases']):
+        lang = rng.choice(('en', 'ja'))
+        r = rng.random()
+        if r < 0.3:
+            beta = rng.choice((1e-5, 1e-3, 0.1, 0.5, 0.9))
+        elif r < 0.7:
+            beta = float('%.*g' % (rng.randint(1, 9), rng.uniform(1e-7, 0.999)))
+        else:
+            beta = 10 ** rng.uniform(-9, -0.01)
+        prune = rng.choice((1, 2, 3, 7, 50, 60, rng.randint(1, 500)))
+        nbest = rng.choice((1, 1, 2, 5, 10))
+        disable = rng.random() < 0.3
+        btxt = repr(beta)
+        argv = ['depccg', lang, '--beta', btxt, '--pruning-size', str(prune), '--nbest', str(nbest)] + (['--disable-beta'] if disable else [])
+        got = {}
+        old = sys.argv
+        sys.argv = argv
+        try:
+            A.parse_args(lambda args: got.update(vars(args)))
+        except SystemExit as e:
+            got['exit'] = e.code
+        except Exception as e:
+            got['error'] = repr(e)
+        finally:
+            sys.argv = old
+        R.case(('cli', tuple(argv)), True)
+        R.count('cli:argument-vectors')
+        wit = {'argv': argv, 'got': {k: got.get(k) for k in ('beta', 'pruning_size', 'nbest', 'disable_beta', 'exit', 'error')}}
+        if got.get('beta') != float(btxt) or got.get('pruning_size') != prune or got.get('disable_beta') is not disable \
+                or got.get('nbest') != nbest:
+            R.violation('beam:cli-setting-altered', f'command line {argv[2:]} arrives as beta={got.get("beta")!r} pruning_size='
+                        f'{got.get("pruning_size")!r} nbest={got.get("nbest")!r} disable_beta={got.get("disable_beta")!r} '
+                        f'({got.get("exit", got.get("error", ""))})', wit)
+        if i < 2:
+            R.sample(wit)
+        if R.out_of_time():
+            break
 
 
 def run_pool(spec, R):
@@ -78,7 +128,9 @@ def run_pool(spec, R):
 
 
 def gen(rng, spec):
-    case = search.gen_case(rng, beam=True, max_n=5, sparse=rng.random() < 0.5, family='softmax' if rng.random() < 0.7 else 'uniform')
+    nb = rng.choice((1, 1, 1, 2, 3, 5))
+    case = search.gen_case(rng, beam=True, max_n=5, sparse=nb > 1 or rng.random() < 0.5, nbest=nb,
+                           family='softmax' if rng.random() < 0.7 else 'uniform')
     cfg = case['config']
     words, tag, dep = case['sentences'][0]
     n, T = tag.shape
@@ -126,6 +178,8 @@ def per_case(E, case, sums):
 def run(spec, R):
     if spec['kind'] == 'pool':
         return run_pool(spec, R)
+    if spec['kind'] == 'cli':
+        return run_cli(spec, R)
     SC.run(ID, PROP, spec, R, gen, nontrivial, per_case)
 
 
